@@ -168,6 +168,27 @@ func c16(c *ev.Ctx) {
 			addExpr(fmt.Sprintf("rangelen/%d/%d", a, b), "range", gast.Call{Fn: "len", Args: []gast.Expr{gast.Infix{Op: "..", L: al, R: bl}}}, nil, nil)
 		}
 	}
+	// bounds that are computed: sums, differences, products, calls and indexes on either side,
+	// written without parentheses (the range takes everything on both sides)
+	{
+		n := gast.Ident{Name: "n"}
+		arr := gast.Ident{Name: "arr"}
+		il := func(v int64) gast.Expr { return gast.IntLit{V: v} }
+		bin := func(op string, l, r gast.Expr) gast.Expr { return gast.Infix{Op: op, L: l, R: r} }
+		bounds := []gast.Expr{il(2), n, bin("+", il(2), il(3)), bin("+", n, il(1)), bin("-", n, il(1)), bin("-", gast.Call{Fn: "len", Args: []gast.Expr{arr}}, il(1)), bin("*", il(2), il(3)), bin("*", n, n),
+			bin("%", il(7), il(4)), bin("**", il(2), il(3)), bin("/", il(8), il(2)), gast.Index{X: arr, I: il(1)}, gast.Prefix{Op: "-", X: n}, bin("+", bin("*", n, il(2)), il(1)), gast.Call{Fn: "min", Args: []gast.Expr{n, il(5)}}}
+		vars := map[string]model.Value{"n": model.Int(3), "arr": model.Arr(model.Int(4), model.Int(6), model.Int(9))}
+		for li, lo := range bounds {
+			for hi, hb := range bounds {
+				rg := bin("..", lo, hb)
+				addExpr(fmt.Sprintf("range-computed/%d/%d", li, hi), "range with computed bounds", rg, vars, nil)
+				if (li+hi)%3 == 0 {
+					tr := gast.ExprStmt{X: gast.Call{Fn: "t", Args: []gast.Expr{gast.Ident{Name: "i"}, gast.Ident{Name: "e"}}}}
+					addProg(fmt.Sprintf("range-computed-foreach/%d/%d", li, hi), "range with computed bounds", gast.Program{Stmts: []gast.Stmt{gast.Foreach{Idx: "i", Var: "e", It: rg, Body: []gast.Stmt{tr}}, gast.Return{X: gast.Call{Fn: "len", Args: []gast.Expr{rg}}}}}, vars, nil)
+				}
+			}
+		}
+	}
 	for _, bad := range []model.Value{model.Float(1), model.Str("1"), model.Null(), model.Bool(true)} {
 		bl, _ := gen.LitOf(bad)
 		addExpr("range-bad/"+bad.Describe(), "range", gast.Infix{Op: "..", L: gast.IntLit{V: 1}, R: bl}, nil, nil)
